@@ -125,6 +125,22 @@ def k1b_cli_reports(core, rep):
                             printed = True
             rep.ob('K1b', f'failure-branch-prints/{getter}', printed,
                    f'when the solve fails the CLI does not print the items of Solver.{getter}()', _w(f, iff))
+            if printed:
+                # ... and whether it is printed depends on that collection alone: every test between the failure branch and the
+                # print mentions only this diagnostic's own variable
+                foreign = []
+                for st in fail_body:
+                    for lp in ast.walk(st):
+                        if isinstance(lp, ast.For) and any(isinstance(x, ast.Name) and x.id == var for x in ast.walk(lp.iter)):
+                            p = getattr(lp, 'parent', None)
+                            while p is not None and p is not iff:
+                                if isinstance(p, (ast.If, ast.While)):
+                                    names = {x.id for x in ast.walk(p.test) if isinstance(x, ast.Name)} - {'len'}
+                                    if not names <= {var}:
+                                        foreign.append(p)
+                                p = getattr(p, 'parent', None)
+                rep.ob('K1b', f'failure-branch-prints-unconditionally/{getter}', not foreign,
+                       f'the items of Solver.{getter}() are printed only when `{unparse(foreign[0].test, 60) if foreign else ""}` also holds: a failure of another kind does not name them', _w(f, foreign[0] if foreign else iff))
         # success text only on the success branch
         for c in calls_in(f.node):
             if call_name(c) == 'print' and any(isinstance(a, ast.Constant) and isinstance(a.value, str) and 'success' in a.value.lower() for a in c.args):
@@ -509,6 +525,9 @@ def k10_refusal(core, rep):
                     continue
                 rep.ob('K10', f'refused-only-set/{fn.name}@{unparse(n, 50)}', isinstance(n, ast.Assign) and _const(n.value, True) and rel == s.rel,
                        f'the refused flag is changed by `{unparse(n)}`: once the user stopped answering it must stay set', f'{rel}:{n.lineno}')
+                rep.ob('K10', f'refused-set-only-by-the-prompt-step/{fn.name}@{unparse(n, 50)}', fn.name == '_attempt_input',
+                       f'{fn.name}() sets the refused flag: only a prompt that supplied nothing may stop the questions - otherwise values that would have been typed are reported missing '
+                       f'although the same values in the file would have been used (file and prompt no longer equivalent)', f'{rel}:{n.lineno}')
     if n_w < 2:
         raise AnalysisError('refused flag writers not found (anchor vanished)')
     # the refusal is recorded when the prompt did not supply a value
@@ -1061,6 +1080,13 @@ def k21_typed_values(core, rep):
         ok = len(ev) == 1 and unparse(ev[0].value) == empty
         rep.ob('K21e', f'{name}/empty-value', ok, f'{name} declares the empty value {unparse(ev[0].value) if ev else None} instead of {empty}', f'{ci.rel}:{init.lineno}')
         sup = [c for c in calls_in(init) if call_name(c) == '__init__' and isinstance(c.func.value, ast.Call)]
+        params = [a.arg for a in init.args.args]
+        vf = 'value_fn' if 'value_fn' in params else None
+        handed = len(sup) == 1 and len(sup[0].args) >= 2 and isinstance(sup[0].args[1], ast.Name) and sup[0].args[1].id == vf \
+            and not any(isinstance(x, (ast.FunctionDef, ast.Lambda)) for x in ast.walk(init) if x is not init) \
+            and not any(isinstance(x, ast.Assign) and any(isinstance(t, ast.Name) and t.id == vf for t in x.targets) for x in ast.walk(init))
+        rep.ob('K21e', f'{name}/definition-handed-on-unchanged', handed,
+               f'{name}.__init__ does not pass the line definition it was given straight to TypedField (it wraps or replaces it): values can be converted before the type check sees them', f'{ci.rel}:{init.lineno}')
         if ty is not None:
             ok = len(sup) == 1 and len(sup[0].args) == 3 and unparse(sup[0].args[2]) == ty
             rep.ob('K21e', f'{name}/declared-type', ok, f'{name} passes {unparse(sup[0].args[2]) if sup and len(sup[0].args) == 3 else None} as its type instead of {ty}', f'{ci.rel}:{init.lineno}')
@@ -1970,3 +1996,114 @@ def _is_order_key(k):
     if isinstance(k, ast.Call) and call_name(k) == 'attrgetter' and [getattr(x, 'value', None) for x in k.args] == ['jurisdiction', 'sequence_no']:
         return True
     return False
+
+
+def k11g_parser_objects_untouched(core, rep):
+    """nothing reconfigures a ConfigParser after construction (optionxform, delimiters, comment prefixes ...): key lookup and the
+    text of values must be the same for a file the user wrote, a file written back and a value typed at the prompt"""
+    attrs = ('optionxform', 'default_section', 'BOOLEAN_STATES', 'SECTCRE', 'OPTCRE', 'NONSPACECRE', 'converters',
+             '_interpolation', '_comment_prefixes', '_inline_comment_prefixes', '_delimiters', '_strict', '_allow_no_value', '_empty_lines_in_values')
+    bad = []
+    for rel, n in core.all_nodes((ast.Assign, ast.AugAssign)):
+        ts = n.targets if isinstance(n, ast.Assign) else [n.target]
+        for t in ts:
+            if isinstance(t, ast.Attribute) and t.attr in attrs:
+                bad.append((rel, n))
+    for rel, c in core.all_nodes(ast.Call):
+        if call_name(c) == 'setattr' and len(c.args) >= 2 and isinstance(c.args[1], ast.Constant) and c.args[1].value in attrs:
+            bad.append((rel, c))
+    rep.ob('K11g', 'parser-objects-are-not-reconfigured', not bad,
+           f'a configuration parser is reconfigured after construction (`{unparse(bad[0][1], 60) if bad else ""}`): keys or values are then read differently from how they are written, so a supplied input can be reported missing', f'{bad[0][0]}:{bad[0][1].lineno}' if bad else '')
+
+
+def k22e_integer_lines_read_back_exactly(core, rep):
+    """whole-number and text lines are read back by converting the text directly with the line's own type (no detour
+    through a float, which is exact only up to 2**53)"""
+    for cls in ('IntegerField', 'StringField'):
+        c, m = core.classes.find_method(cls, 'from_string')
+        if m is None:
+            raise AnalysisError(f'{cls}.from_string not found (anchor vanished)')
+        calls = sorted({call_name(x) for x in calls_in(m) if call_name(x)})
+        ok = set(calls) <= {'int', 'str', '_type', 'strip'}
+        rep.ob('K22e', f'{cls}/read-back-converts-directly', ok,
+               f'{cls} lines are read back through {calls} ({c.name}.from_string): the text is not converted directly by the line\'s own type, so large whole numbers (or text) do not read back to the solved value', f'{c.rel}:{m.lineno}')
+
+
+def k23f_filling_keeps_no_state(core, rep):
+    """Filling one form writes nothing to the filler's own state: the line a box is filled from is computed, inside the loop
+    over that form's boxes, from the box and from the form instance being filled - never looked up in something remembered
+    from another copy of the form."""
+    n = 0
+    for mname in ('_fill_form', 'fill', '_create_fdf'):
+        c, m = core.classes.find_method('PDFFiller', mname)
+        if m is None:
+            continue
+        n += 1
+        writes = []
+        for x in ast.walk(m):
+            if isinstance(x, (ast.Assign, ast.AugAssign, ast.AnnAssign, ast.Delete)):
+                ts = x.targets if isinstance(x, (ast.Assign, ast.Delete)) else [x.target]
+                for t in ts:
+                    for e in ([t] if not isinstance(t, (ast.Tuple, ast.List)) else t.elts):
+                        base = e.value if isinstance(e, ast.Subscript) else e
+                        if self_attr(base):
+                            writes.append(x)
+            if isinstance(x, ast.Call) and isinstance(x.func, ast.Attribute) and x.func.attr in MUTATORS + ('add',) and self_attr(x.func.value):
+                writes.append(x)
+        rep.ob('K23f', f'PDFFiller.{mname}/writes-no-filler-state', not writes,
+               f'PDFFiller.{mname}() stores into the filler itself (`{unparse(writes[0], 60) if writes else ""}`): what is remembered from one copy of a form can be used for another copy (8889:you / 8889:spouse)',
+               f'{c.rel}:{(writes[0] if writes else m).lineno}')
+    if n < 2:
+        raise AnalysisError('PDFFiller fill methods not found (anchor vanished)')
+    # the lookup key inside _fill_form derives from the loop variable and the form parameter
+    c, m = core.classes.find_method('PDFFiller', '_fill_form')
+    form_param = m.args.args[1].arg
+    loops = [x for x in ast.walk(m) if isinstance(x, ast.For) and any(call_name(cc) == 'pdf_fields' for cc in calls_in(x.iter))]
+    ok = False
+    for lp in loops:
+        if not (isinstance(lp.iter, ast.Call) and call_name(lp.iter) == 'pdf_fields' and isinstance(lp.iter.func.value, ast.Name) and lp.iter.func.value.id == form_param):
+            continue          # the loop must run over exactly form.pdf_fields() (no zip with remembered data)
+        lv = {nm.id for nm in ast.walk(lp.target) if isinstance(nm, ast.Name)}
+        derived = set(lv) | {form_param}
+        changed = True
+        while changed:
+            changed = False
+            for x in ast.walk(lp):
+                if isinstance(x, ast.Assign) and len(x.targets) == 1 and isinstance(x.targets[0], ast.Name) and x.targets[0].id not in derived:
+                    names = {nm.id for nm in ast.walk(x.value) if isinstance(nm, ast.Name)}
+                    if names and names <= derived:
+                        derived.add(x.targets[0].id)
+                        changed = True
+        keys = [x.slice for x in ast.walk(lp) if isinstance(x, ast.Subscript) and self_attr(x.value) in ('_values', '_field_map')]
+        ok = bool(keys) and all({nm.id for nm in ast.walk(k) if isinstance(nm, ast.Name)} <= derived for k in keys)
+    rep.ob('K23f', 'box-line-computed-from-this-form', ok,
+           'PDFFiller._fill_form() does not look the value of each box up under a name computed, inside the loop over form.pdf_fields(), from that box and the form being filled', f'{c.rel}:{m.lineno}')
+
+
+def k17b_validation_on_demand(core, rep):
+    """Inputs are validated when a line reads them, not before: InvalidInput is raised only by the store's read gate, and
+    valid() is consulted only there, by the prompt loop and by the solver's assertion on a prompted answer.  An input no line
+    reads can therefore never make a run fail."""
+    raises = []
+    for f in core.funcs:
+        for x in ast.walk(f.node):
+            if isinstance(x, ast.Raise) and x.exc is not None and 'InvalidInput' in unparse(x.exc):
+                raises.append((f, x))
+    if not raises:
+        raise AnalysisError('no raise of InvalidInput found (anchor vanished)')
+    for (f, x) in raises:
+        rep.ob('K17b', f'InvalidInput-raised-only-by-the-read-gate/{f.qual}', f.cls == 'InputStore' and f.name == '__getitem__',
+               f'{f.qual} raises InvalidInput: a malformed value is then rejected although no line asked for that input', _w(f, x))
+    n = 0
+    for f in core.funcs:
+        if f.rel == 'habutax/inputs.py' and f.cls and f.cls != 'InputStore':
+            continue          # the input classes themselves (valid() implementations, super().valid())
+        for c in calls_in(f.node):
+            if call_name(c) == 'valid' and isinstance(c.func, ast.Attribute):
+                n += 1
+                ok = (f.cls == 'InputStore' and f.name == '__getitem__') or (f.cls is None and f in prompt_functions(core)) or \
+                     (f.cls == core.solver.name and f.name == '_attempt_input')
+                rep.ob('K17b', f'valid-consulted-on-demand/{f.qual}', ok,
+                       f'{f.qual} validates input text outside the read gate, the prompt loop and the check of a prompted answer: inputs nobody reads are validated too', _w(f, c))
+    if n < 2:
+        raise AnalysisError('calls of valid() not found (anchor vanished)')
